@@ -19,12 +19,21 @@
 (* variable table + identity cache per EVENT, the locals entry deleted     *)
 (* from it after unwrapping - the second tracepoint on a line gets an      *)
 (* empty top frame and shares the first one's table.                       *)
+(*                                                                         *)
+(* A second CONFIGURATION in the same process (Reconfigure: the agent is   *)
+(* started again with another application root, a second ConfigService)    *)
+(* sees the same files: which frames are application frames, and their     *)
+(* short paths, follow the configuration in force, not what an earlier     *)
+(* one said about the file.  AppFlagMemoised = TRUE is the deviation: the  *)
+(* answer per file is remembered across configurations.                    *)
 (***************************************************************************)
 EXTENDS Naturals, Sequences, FiniteSets, TLC
 
 CONSTANTS MaxDepth,     \* stack depth bound
           MaxActions,   \* tracepoints on the location
           SharedTable,  \* deviation switch
+          MaxLives,     \* configurations the same files are seen under (1: no Reconfigure)
+          AppFlagMemoised,  \* deviation switch
           ClsKinds      \* what `self` is in a frame: "none" (a plain function), "C" (an ordinary instance),
                         \*   "E" (an instance that is falsy: an empty container-like object),
                         \*   "H" (an instance whose truth value cannot be taken: __bool__ raises)
@@ -39,9 +48,12 @@ VARIABLES stack,     \* sequence of frames, top first: [nl |-> number of locals,
           snaps,     \* produced snapshots, one per processed action
           evCached,  \* deviation state: the locals mappings already in the per-event cache (frame indexes)
           next,      \* index of the next action to process
-          phase      \* "build" while the case is being chosen (environment), "run" while the agent handles the event
+          phase,     \* "build" while the case is being chosen (environment), "run" while the agent handles the event
+          life,      \* which configuration is in force (1..MaxLives)
+          flipped    \* TRUE: this configuration names the OTHER directory as the application's root, so stack[i].app
+                     \* (= "the file lies under the first configuration's root") reads the other way round
 
-vars == <<stack, tps, expire, snaps, evCached, next, phase>>
+vars == <<stack, tps, expire, snaps, evCached, next, phase, life, flipped>>
 
 Frames == [nl : 0..2, cls : ClsKinds, app : BOOLEAN]
 Tps == [ft : FrameTypes, w : {<<>>, <<"local">>, <<"failing", "local">>, <<"global">>}]
@@ -54,17 +66,21 @@ Init ==
     /\ evCached = {}
     /\ next = 1
     /\ phase = "build"
+    /\ life = 1
+    /\ flipped = FALSE
+
+IsApp(i) == stack[i].app # flipped
 
 (* the environment chooses the case: who called whom, which tracepoints sit on the line, when time runs out *)
 AddFrame(f) == phase = "build" /\ Len(stack) < MaxDepth /\ stack' = Append(stack, f)
-               /\ UNCHANGED <<tps, expire, snaps, evCached, next, phase>>
+               /\ UNCHANGED <<tps, expire, snaps, evCached, next, phase, life, flipped>>
 AddTp(t) == phase = "build" /\ Len(tps) < MaxActions /\ tps' = Append(tps, t)
-            /\ UNCHANGED <<stack, expire, snaps, evCached, next, phase>>
+            /\ UNCHANGED <<stack, expire, snaps, evCached, next, phase, life, flipped>>
 SetExpire(e) == phase = "build" /\ expire = MaxDepth /\ e < MaxDepth /\ expire' = e
-                /\ UNCHANGED <<stack, tps, snaps, evCached, next, phase>>
+                /\ UNCHANGED <<stack, tps, snaps, evCached, next, phase, life, flipped>>
 (* the time budget is per trigger (shared by the tracepoints of the event): expiry is modelled for one tracepoint only *)
 Hit == phase = "build" /\ stack # <<>> /\ tps # <<>> /\ (Len(tps) > 1 => expire = MaxDepth) /\ phase' = "run"
-       /\ UNCHANGED <<stack, tps, expire, snaps, evCached, next>>
+       /\ UNCHANGED <<stack, tps, expire, snaps, evCached, next, life, flipped>>
 
 (* frame_type -> which frame indexes (0 = top) carry variables *)
 ShouldCollect(ft, idx) ==
@@ -80,7 +96,8 @@ FrameOf(a, idx, cached) ==
         collect == ShouldCollect(tps[a].ft, idx) /\ idx < expire
         \* deviation: a locals mapping already in the per-event cache yields a reference to a deleted entry
         lost == SharedTable /\ idx \in cached
-    IN [idx |-> idx, cls |-> f.cls, app |-> f.app,
+    IN [idx |-> idx, cls |-> f.cls,
+        app |-> IF AppFlagMemoised /\ life > 1 THEN f.app ELSE IsApp(idx + 1),
         vars |-> IF collect /\ ~lost THEN LocalNames(idx) ELSE {}]
 
 WatchOutcome(k) == IF k = "failing" THEN "error" ELSE "value"
@@ -95,6 +112,16 @@ Collect(a) ==
        IN /\ snaps' = Append(snaps, snap)
           /\ evCached' = IF SharedTable THEN evCached \cup collected ELSE evCached
     /\ next' = a + 1
+    /\ UNCHANGED <<stack, tps, expire, phase, life, flipped>>
+
+(* the event is over; the agent is configured again with the other root and the program reaches the line once more *)
+Reconfigure ==
+    /\ phase = "run" /\ next > Len(tps) /\ life < MaxLives
+    /\ life' = life + 1
+    /\ flipped' = ~flipped
+    /\ snaps' = <<>>
+    /\ evCached' = {}
+    /\ next' = 1
     /\ UNCHANGED <<stack, tps, expire, phase>>
 
 Next == \/ \E f \in Frames : AddFrame(f)
@@ -102,6 +129,7 @@ Next == \/ \E f \in Frames : AddFrame(f)
         \/ \E e \in 0..MaxDepth : SetExpire(e)
         \/ Hit
         \/ \E a \in 1..MaxActions : Collect(a)
+        \/ Reconfigure
         \/ (phase = "run" /\ next > Len(tps) /\ UNCHANGED vars)
 
 Spec == Init /\ [][Next]_vars
@@ -112,7 +140,7 @@ FramesMatchStack ==
     \A s \in 1..Len(snaps) :
         /\ Len(snaps[s].frames) = Len(stack)
         /\ \A i \in 1..Len(stack) : /\ snaps[s].frames[i].cls = stack[i].cls
-                                    /\ snaps[s].frames[i].app = stack[i].app
+                                    /\ snaps[s].frames[i].app = IsApp(i)
 TopFrameVarsAreLocals ==
     \A s \in 1..Len(snaps) :
         (tps[snaps[s].tp].ft # "no_frame" /\ expire > 0) => snaps[s].frames[1].vars = LocalNames(0)
